@@ -225,6 +225,18 @@ def dump(d, blob):
     return p.returncode, kv, p.stdout
 
 
+def dump_copy(base, blob, work, patch=None):
+    """copy the directory (opening a tree may delete orphans), optionally replace one file, dump"""
+    img = os.path.join(work, "img")
+    if os.path.exists(img):
+        shutil.rmtree(img)
+    shutil.copytree(base, img)
+    if patch:
+        with open(os.path.join(img, patch[0]), "wb") as f:
+            f.write(patch[1])
+    return dump(img, blob)
+
+
 def explore(name, blob, log=print, max_images=400):
     """crash at every operation boundary (mark) and at every event in between; images: all unsynced
     directory ops lost / all kept / each single one lost. -> report dict"""
